@@ -1,9 +1,12 @@
 package netsim
 
 import (
+	"bytes"
 	"errors"
+	"fmt"
 	"net"
 	"reflect"
+	"sort"
 	"strings"
 	"time"
 
@@ -58,7 +61,8 @@ type Invocation struct {
 	PD       []PDObs // v6: IA_PD options of the returned response
 	NA       []NAObs // v6: IA_NA options of the returned response
 	RespType int
-	Opts     []int // option codes of the returned response (top level)
+	Opts     []int  // option codes of the returned response (top level)
+	RT       string // non-empty: the returned response does not survive serialise + parse (C19)
 }
 
 var registered bool
@@ -113,6 +117,7 @@ func observe(p *plugins.Plugin, isBuiltin bool) *plugins.Plugin {
 					inv.Yiaddr = append([]byte(nil), r.YourIPAddr...)
 					inv.Lease = int64(r.IPAddressLeaseTime(-1))
 					inv.MsgType = int(r.MessageType())
+					inv.RT = roundTrip4(r)
 				}
 				simrt.UserLog(inv)
 				return r, stop
@@ -135,6 +140,7 @@ func observe(p *plugins.Plugin, isBuiltin bool) *plugins.Plugin {
 				inv.RespNil, inv.Stop, inv.OutPtr = r == nil, stop, ptrOf(r)
 				if r != nil {
 					observe6(inv, r)
+					inv.RT = roundTrip6(r)
 				}
 				simrt.UserLog(inv)
 				return r, stop
@@ -142,6 +148,60 @@ func observe(p *plugins.Plugin, isBuiltin bool) *plugins.Plugin {
 		}
 	}
 	return q
+}
+
+// roundTrip4 checks that a response serialises and parses back to the same options.
+func roundTrip4(r *dhcpv4.DHCPv4) (msg string) {
+	defer func() {
+		if e := recover(); e != nil {
+			msg = fmt.Sprintf("serialising the response panics: %v", e)
+		}
+	}()
+	b := r.ToBytes()
+	m, err := dhcpv4.FromBytes(b)
+	if err != nil {
+		return fmt.Sprintf("the serialised response does not parse back: %v", err)
+	}
+	var codes []int
+	for c := range r.Options {
+		codes = append(codes, int(c))
+	}
+	sort.Ints(codes)
+	for _, c := range codes {
+		if c == 0 || c == 255 {
+			continue
+		}
+		if !bytes.Equal(m.Options[uint8(c)], r.Options[uint8(c)]) {
+			return fmt.Sprintf("option %d is % x in the response and % x after serialise+parse", c, r.Options[uint8(c)], m.Options[uint8(c)])
+		}
+	}
+	for c := range m.Options {
+		if _, ok := r.Options[c]; !ok && c != 0 && c != 255 {
+			return fmt.Sprintf("option %d appears only after serialise+parse", c)
+		}
+	}
+	if !bytes.Equal(m.ToBytes(), b) {
+		return "re-serialising the parsed response gives different bytes"
+	}
+	return ""
+}
+
+// roundTrip6 checks that a response serialises, parses back and serialises to the same bytes.
+func roundTrip6(r dhcpv6.DHCPv6) (msg string) {
+	defer func() {
+		if e := recover(); e != nil {
+			msg = fmt.Sprintf("serialising the response panics: %v", e)
+		}
+	}()
+	b := r.ToBytes()
+	m, err := dhcpv6.FromBytes(b)
+	if err != nil {
+		return fmt.Sprintf("the serialised response does not parse back: %v", err)
+	}
+	if b2 := m.ToBytes(); !bytes.Equal(b2, b) {
+		return fmt.Sprintf("the response serialises to % x, after parse+serialise it is % x", clipB(b, 96), clipB(b2, 96))
+	}
+	return ""
 }
 
 // PDObs is one IA_PD of a handler result.
